@@ -586,7 +586,58 @@ pub struct Scn3 {
     pub knobs: SchedKnobs,
 }
 
+/// Multi-phase half-open histories: trials that outlive their episode, cancels aimed at
+/// running trials of an earlier episode, bursts at every re-probe instant.
+fn gen3_multi_phase(rng: &mut Rng) -> Scn3 {
+    let mut cfg = gen_cfg(rng, true);
+    cfg.classifier = 0;
+    cfg.permitted = rng.range(2, 3) as u32;
+    cfg.wait_ms = 30;
+    if cfg.fail_eighths == 0 {
+        cfg.fail_eighths = 4;
+    }
+    if let Some(m) = cfg.min_calls {
+        cfg.min_calls = Some(m.min(cfg.size));
+    }
+    let wait = cfg.wait_ms;
+    let mut callers = vec![];
+    let bursts = rng.range(2, 5);
+    let mut t = 1 + wait + *rng.pick(&[0u64, 0, 1, 5]);
+    for _ in 0..bursts {
+        let k = rng.range(1, 4);
+        for j in 0..k {
+            let lat_ms = *rng.pick(&[0u64, 0, 5, 10, wait / 2, wait + 10, wait + 20, 2 * wait + 20, 3 * wait]);
+            let start_ms = t + if j > 0 && rng.chance(1, 3) { *rng.pick(&[1u64, 5, 10]) } else { 0 };
+            callers.push(Caller {
+                start_ms,
+                beh: Behaviour { lat_ms, out: if rng.chance(2, 5) { Outcome::Err(0) } else { Outcome::Ok }, yields: *rng.pick(&[0u8, 0, 1]) },
+                cancel: if rng.chance(3, 10) { CancelSpec::AtMs(start_ms + *rng.pick(&[5u64, wait, wait + 5, wait + 15, 2 * wait + 10])) } else { CancelSpec::Never },
+            });
+            if callers.len() >= 15 {
+                break;
+            }
+        }
+        t += wait + *rng.pick(&[0u64, 0, 5, 10, 20]);
+        if callers.len() >= 15 {
+            break;
+        }
+    }
+    Scn3 {
+        cfg,
+        fallback_ms: if rng.chance(1, 4) { Some(0) } else { None },
+        callers,
+        force_open_at: Some(rng.below(2)),
+        force_closed_at: None,
+        reset_at: None,
+        probe: true,
+        knobs: SchedKnobs::gen(rng, false, 100),
+    }
+}
+
 pub fn gen3(rng: &mut Rng, half_open_bias: bool) -> Scn3 {
+    if half_open_bias && rng.chance(1, 2) {
+        return gen3_multi_phase(rng);
+    }
     let mut cfg = gen_cfg(rng, true);
     cfg.classifier = 0;
     if cfg.fail_eighths == 0 {
@@ -655,7 +706,7 @@ pub fn valid3(s: &Scn3) -> bool {
         && s.cfg.classifier == 0
         && !s.callers.is_empty()
         && s.callers.len() <= 16
-        && s.callers.iter().all(|c| c.start_ms <= 1500 && c.beh.lat_ms <= 100 && c.beh.yields <= 4 && matches!(c.beh.out, Outcome::Ok | Outcome::Err(0) | Outcome::Never))
+        && s.callers.iter().all(|c| c.start_ms <= 1500 && c.beh.lat_ms <= 400 && c.beh.yields <= 4 && matches!(c.beh.out, Outcome::Ok | Outcome::Err(0) | Outcome::Never))
         && s.fallback_ms.map(|f| f <= 20).unwrap_or(true)
         && s.force_open_at.map(|t| t <= 1500).unwrap_or(true)
         && s.force_closed_at.map(|t| t <= 1500).unwrap_or(true)
